@@ -73,9 +73,11 @@ def robust_sample_std(x, axis):
     return winsorize_std(x, axis=-1)
 
 
-def boot_sigma(data, conf, num_iterations=10000, winsorize=False):
+def boot_sigma(data, conf, num_iterations=10000, winsorize=False, seed=4191):
     """
     Bootstrap standard deviation.
+    The resampling is seeded (scipy would otherwise draw from numpy's global generator), so that
+    the same data always gives the same estimate.
     """
     # we use upper bound of confidence interval for more robustness
     if winsorize:
@@ -84,7 +86,12 @@ def boot_sigma(data, conf, num_iterations=10000, winsorize=False):
         std_func = sample_std
 
     return bootstrap(
-        data.reshape(1, -1), std_func, confidence_level=conf, method="basic", n_resamples=num_iterations
+        data.reshape(1, -1),
+        std_func,
+        confidence_level=conf,
+        method="basic",
+        n_resamples=num_iterations,
+        random_state=np.random.default_rng(seed),
     ).confidence_interval.high
 
 
